@@ -103,7 +103,7 @@ def transforms(nargs, float_first, axes_seed):
 IDENTITY_LIKE = ("jit", "jit_jit", "inner_jit", "checkpoint")
 
 
-def check_fn(fid, fn, shapes, dtypes, tnames, acc=None, sigbase=None, case=None, feed_seed=5):
+def check_fn(fid, fn, shapes, dtypes, tnames, acc=None, sigbase=None, case=None, feed_seed=5, feed_mode=0):
     import jax
     import jax.numpy as jnp
     from vf import catalog, jaxutil
@@ -125,7 +125,7 @@ def check_fn(fid, fn, shapes, dtypes, tnames, acc=None, sigbase=None, case=None,
         build, smap = T[tname]
         sh = smap([tuple(s) for s in shapes])
         rng = np.random.default_rng(feed_seed)
-        feeds = [catalog.draw_value(rng, s, d, 0) for s, d in zip(sh, dtypes)]
+        feeds = [catalog.draw_value(rng, s, d, feed_mode) for s, d in zip(sh, dtypes)]
         try:
             tf = build(fn)
             exp = jaxutil.flatten(tf(*[jnp.asarray(f) for f in feeds]))
@@ -207,7 +207,11 @@ def check_catalog(cid, tnames, acc=None):
     except Exception:
         return []
     sigbase = {"layer": "catalog", "component": f"{case['context']}/{case['component']}", "testcase": tc.get("testcase")}
-    return check_fn(cid, fn, shapes, dts2, tnames, acc, sigbase, {"kind": "catalog", "id": cid})
+    p = catalog.Prepared()
+    p.case, p.fn, p.shapes, p.dtypes, p.params = case, fn, [tuple(s) for s in shapes], dts2, {}
+    # data-dependent loops: termination depends on the values, so those callables only see the benign pool
+    mode = 3 if catalog.has_data_dependent_loop(p) else 0
+    return check_fn(cid, fn, shapes, dts2, tnames, acc, sigbase, {"kind": "catalog", "id": cid}, feed_mode=mode)
 
 
 def check_program(prog, tnames, acc=None):
